@@ -29,6 +29,7 @@ def run(ctx):
     from . import c19
     ctx.run("C19.INTERCEPT", "R-TABLE/R-ORDER", c19.intercept)
     ctx.run("C13.FLUSH", "R-ORDER", zf.flush)
+    ctx.run("C13.OWNERSHIP", "R-WHO", zf.ownership)
     ctx.run("C13.PROGRESS", "R-PROGRESS", zf.progress)
     ctx.run("C13.CURSOR", "R-DUAL", zf.cursor)
     ctx.run("C13.POS", "R-ORDER", zf.pos)
